@@ -135,7 +135,7 @@ def run(ctx):
     def chk(case):
         check_case(case, ctx)
 
-    ctx.run_hypothesis(case_strategy(), chk, ctx.pick(4, 4), salt="main")
+    ctx.run_hypothesis(case_strategy(), chk, ctx.pick(3, 3), salt="main")
 
 
 def replay(ctx, case):
